@@ -413,7 +413,51 @@ func (g *Gen) leaf(c *model.Coll) *model.Crit {
 	return cr
 }
 
+// cmpLeaf draws a comparison on the given path (the shapes the planner turns into ranges).
+func (g *Gen) cmpLeaf(c *model.Coll, path string) *model.Crit {
+	ops := []string{"eq", "neq", "gt", "gte", "lt", "lte"}
+	o := g.operand(c, path, true)
+	return &model.Crit{Op: ops[g.R.Intn(len(ops))], F: path, A: &o}
+}
+
+// plannerShape draws criteria aimed at the planner: several comparisons on ONE
+// path combined through And/Or and chains of negations of every depth.
+func (g *Gen) plannerShape(c *model.Coll) *model.Crit {
+	path := g.pickPath()
+	if c != nil && len(c.Indexes) > 0 && g.R.Chance(0.8) {
+		fs := c.IndexFields()
+		path = fs[g.R.Intn(len(fs))]
+	}
+	wrap := func(x *model.Crit) *model.Crit {
+		for n := g.R.Intn(4); n > 0; n-- {
+			x = &model.Crit{Op: "not", Kids: []*model.Crit{x}}
+		}
+		return x
+	}
+	a, b := wrap(g.cmpLeaf(c, path)), wrap(g.cmpLeaf(c, path))
+	op := "and"
+	if g.R.Chance(0.35) {
+		op = "or"
+	}
+	x := wrap(&model.Crit{Op: op, Kids: []*model.Crit{a, b}})
+	if g.R.Chance(0.4) {
+		third := wrap(g.cmpLeaf(c, path))
+		if g.R.Chance(0.3) {
+			third = wrap(g.leaf(c))
+		}
+		op2 := "and"
+		if g.R.Chance(0.3) {
+			op2 = "or"
+		}
+		x = wrap(&model.Crit{Op: op2, Kids: []*model.Crit{x, third}})
+	}
+	return x
+}
+
 func (g *Gen) crit(c *model.Coll, depth int) *model.Crit {
+	if depth >= 2 && g.R.Chance(0.18) {
+		return g.plannerShape(c)
+	}
 	if depth <= 0 || g.R.Chance(0.45) {
 		return g.leaf(c)
 	}
